@@ -103,9 +103,9 @@ def Op.isSaMove : Op → Bool
 
 /-- C10 finding classes: operations that may hand a block to an unequal allocator -/
 def Op.affectedA (c : Cfg) : Op → Bool
-  | .assignMove .. => !(c.pocma || c.iae)
-  | .ctorMoveA .. => !c.iae
-  | .assignCopy .. => c.pocca && !c.iae
+  | .assignMove .. => !(c.pocma || c.iae || c.fx9a)
+  | .ctorMoveA .. => !(c.iae || c.fx9a)
+  | .assignCopy .. => c.pocca && !c.iae && !c.fx9c
   | .assignView .. | .assignRange .. => !(c.fx9 || c.pocma || c.iae)
   | _ => false
 
@@ -146,6 +146,15 @@ theorem eqv_trans {c : Cfg} {a b d : AllocId} (h1 : c.eqv a b = true) (h2 : c.eq
     rw [hi] at h1 h2
     simp only [Bool.false_or, beq_iff_eq] at h1 h2 ⊢
     exact h1.trans h2
+
+theorem eqv_symm {c : Cfg} {a b : AllocId} (h : c.eqv a b = true) : c.eqv b a = true := by
+  unfold Cfg.eqv at *
+  cases hi : c.iae with
+  | true => simp
+  | false =>
+    rw [hi] at h
+    simp only [Bool.false_or, beq_iff_eq] at h ⊢
+    exact h.symm
 
 theorem alive_iff {s : St} {i : Nat} : alive s i = true ↔ ∃ x, getArr s i = some x := by
   unfold alive
@@ -388,11 +397,12 @@ theorem ctorRange_spec (c : Cfg) (hok : c.OK) (i j : Nat) (a : AllocId) (s : St)
   exact ⟨h1, h2, h3, fun _ => h4, h5⟩
 
 /-- move construction: the block changes hands, nothing is allocated, constructed or destroyed -/
-theorem opCtorMove_out (c : Cfg) (hok : c.OK) (i j : Nat) (a : Option AllocId) (s : St) {Q : St → Prop} {T : Prop} (hG : Good c s)
-    (hvac : vacant s i = true) (y : Arr) (hy : getArr s j = some y) :
+theorem opCtorMove_adopt (c : Cfg) (hok : c.OK) (i j : Nat) (a : Option AllocId) (s : St) {Q : St → Prop} {T : Prop} (hG : Good c s)
+    (hvac : vacant s i = true) (y : Arr) (hy : getArr s j = some y)
+    (hcond : (c.fx9a && !c.eqv (pickAlloc a y.alloc) y.alloc) = false) :
     Out (opCtorMove c i j a s)
       (fun _ s' => Good c s' ∧ NF s s' ∧ s'.arrs.length = s.arrs.length ∧
-        ((a = none ∨ c.iae = true) → InvAS c s → InvAS c s') ∧
+        (c.eqv (pickAlloc a y.alloc) y.alloc = true → InvAS c s → InvAS c s') ∧
         allocOf s' i = some (pickAlloc a y.alloc)) Q T := by
   obtain ⟨hI, hW⟩ := hG
   obtain ⟨hlt, hi⟩ := vacant_iff.mp hvac
@@ -401,8 +411,8 @@ theorem opCtorMove_out (c : Cfg) (hok : c.OK) (i j : Nat) (a : Option AllocId) (
     intro e; subst e; rw [hi] at hj; cases hj
   unfold opCtorMove
   rw [get_bind]
-  simp only [hy]
-  generalize hal : pickAlloc a y.alloc = al
+  simp only [hy, hcond, Bool.false_eq_true, if_false]
+  generalize pickAlloc a y.alloc = al
   apply Out.bind (setSlot_out i _ s) _ (fun _ h => h)
   intro _ s1 h1
   apply Out.mono (setSlot_out j _ s1) _ (fun _ h => h) id
@@ -417,59 +427,20 @@ theorem opCtorMove_out (c : Cfg) (hok : c.OK) (i j : Nat) (a : Option AllocId) (
     apply Wn.set (Wn.set hW _) _
     · intro z hz; cases hz; exact hW j y hj
     · intro z hz; cases hz; show 0 = nElems (emptyExts c.dim); rw [nElems_emptyExts hok.dim]
-  · intro hcase hA
+  · intro heq hA
     show InvA c s2.blocks s2.arrs
     rw [h2.blocks, h1.blocks, harrs]
-    rcases hcase with ha | hiae
-    · subst ha
-      have : y.alloc = al := hal
-      subst this
-      exact InvA.transfer hA hij hj rfl rfl rfl (fun b blk hn hb hB hf => hA.ownerEq j y b blk hj hn hb hB hf)
-    · exact InvA.of_iae hiae _ _
+    refine InvA.transfer (x' := ⟨al, y.base, y.ext, y.n⟩) (y' := { y with base := none, ext := emptyExts c.dim, n := 0 })
+      hA hij hj rfl rfl rfl ?_
+    intro b blk hn hb hB hf
+    exact eqv_trans (hA.ownerEq j y b blk hj hn hb hB hf) (eqv_symm heq)
   · unfold allocOf
     rw [getArr_of_arrs (o := some ⟨al, y.base, y.ext, y.n⟩)]
     · rfl
     · rw [harrs, List.getElem?_set_ne (Ne.symm hij)]
       exact List.getElem?_set_self hlt
 
-theorem ctorMove_spec (c : Cfg) (hok : c.OK) (i j : Nat) (s : St) (hG : Good c s)
-    (happ : (Op.ctorMove i j).applicable c s = true) : OpSpec c (.ctorMove i j) s := by
-  simp only [Op.applicable, Bool.and_eq_true] at happ
-  obtain ⟨y, hy⟩ := alive_iff.mp happ.2
-  unfold OpSpec
-  show Out (opCtorMove c i j none s) _ _ _
-  apply Out.mono (opCtorMove_out (T := s.fuel ≠ none ∧ (Op.ctorMove i j).isSaMove = true) c hok i j none s hG happ.1 y hy) _
-    (fun _ h => h) id
-  intro _ s' ⟨h1, h2, h3, h4, h5⟩
-  refine ⟨h1, h2, h3, fun _ => h4 (Or.inl rfl), ?_⟩
-  show allocOf s' i = allocOf s j
-  rw [h5, allocOf_eq hy]; rfl
-
-theorem ctorMoveA_spec (c : Cfg) (hok : c.OK) (i j : Nat) (a : AllocId) (s : St) (hG : Good c s)
-    (happ : (Op.ctorMoveA i j a).applicable c s = true) : OpSpec c (.ctorMoveA i j a) s := by
-  simp only [Op.applicable, Bool.and_eq_true] at happ
-  obtain ⟨y, hy⟩ := alive_iff.mp happ.2
-  unfold OpSpec
-  show Out (opCtorMove c i j (some a) s) _ _ _
-  apply Out.mono (opCtorMove_out (T := s.fuel ≠ none ∧ (Op.ctorMoveA i j a).isSaMove = true) c hok i j (some a) s hG happ.1 y hy) _
-    (fun _ h => h) id
-  intro _ s' ⟨h1, h2, h3, h4, h5⟩
-  refine ⟨h1, h2, h3, ?_, h5⟩
-  intro haff
-  apply h4
-  right
-  simpa [Op.affectedA] using haff
-
 /-! ### destructor, clear, reshape, swap, move assignment -/
-
-theorem eqv_symm {c : Cfg} {a b : AllocId} (h : c.eqv a b = true) : c.eqv b a = true := by
-  unfold Cfg.eqv at *
-  cases hi : c.iae with
-  | true => simp
-  | false =>
-    rw [hi] at h
-    simp only [Bool.false_or, beq_iff_eq] at h ⊢
-    exact h.symm
 
 theorem dtor_spec (c : Cfg) (hok : c.OK) (i : Nat) (s : St) (hG : Good c s)
     (happ : (Op.dtor i).applicable c s = true) : OpSpec c (.dtor i) s := by
@@ -612,16 +583,17 @@ theorem swap_spec (c : Cfg) (hok : c.OK) (i j : Nat) (s : St) (hG : Good c s)
           · rw [harrs]; exact List.getElem?_set_self (by simp; exact hltj)
 
 /-- `clear(); base_ = p; if(POCMA) alloc = srcAlloc; layout = …` onto a slot, from a heap in which block `p` belongs to slot `j` -/
-theorem assignMove_spec (c : Cfg) (hok : c.OK) (i j : Nat) (s : St) (hG : Good c s)
-    (happ : (Op.assignMove i j).applicable c s = true) : OpSpec c (.assignMove i j) s := by
-  simp only [Op.applicable, Bool.and_eq_true] at happ
-  obtain ⟨x, hx⟩ := alive_iff.mp happ.1
-  obtain ⟨y, hy⟩ := alive_iff.mp happ.2
+theorem assignMove_adopt (c : Cfg) (hok : c.OK) (i j : Nat) (s : St) {T : Prop} (hG : Good c s) (x y : Arr)
+    (hx : getArr s i = some x) (hy : getArr s j = some y)
+    (hcond : (c.fx9a && !c.pocma && !c.eqv x.alloc y.alloc) = false) :
+    Out (opAssignMove c i j s)
+      (fun _ s' => Good c s' ∧ NF s s' ∧ s'.arrs.length = s.arrs.length ∧
+        ((c.pocma = true ∨ c.eqv x.alloc y.alloc = true) → InvAS c s → InvAS c s') ∧
+        allocOf s' i = if c.pocma then allocOf s j else allocOf s i)
+      (fun _ => False) T := by
   have hi := getArr_eq hx
   have hj := getArr_eq hy
   have hlti : i < s.arrs.length := (List.getElem?_eq_some_iff.mp hi).1
-  unfold OpSpec
-  show Out (opAssignMove c i j s) _ _ _
   unfold opAssignMove
   rw [get_bind]
   simp only [hx, hy]
@@ -632,7 +604,7 @@ theorem assignMove_spec (c : Cfg) (hok : c.OK) (i j : Nat) (s : St) (hG : Good c
     refine ⟨hG, NF.refl s, rfl, fun _ h => h, ?_⟩
     show allocOf s i = if c.pocma then allocOf s i else allocOf s i
     cases c.pocma <;> rfl
-  · simp only [hij, if_false]
+  · simp only [hij, if_false, hcond, Bool.false_eq_true]
     refine Out.noexcept' (Q := fun _ => False) (T := False) ?_ (fun _ h => False.elim h) (fun h => False.elim h)
     unfold moveAssignFrom
     show Out (((clearArr c i x >>= fun x' => setSlot i (some { x' with base := y.base, alloc := if c.pocma then y.alloc else x'.alloc, ext := y.ext, n := y.n }))
@@ -666,17 +638,16 @@ theorem assignMove_spec (c : Cfg) (hok : c.OK) (i j : Nat) (s : St) (hG : Good c
       · intro haff hA
         show InvA c s3.blocks s3.arrs
         rw [h6.blocks, h5.blocks, harrs]
-        have hcase : c.pocma = true ∨ c.iae = true := by
-          simp only [Op.affectedA, Bool.not_eq_false', Bool.or_eq_true] at haff
-          exact haff
-        rcases hcase with hp | hiae
-        · refine InvA.transfer (x' := { x' with base := y.base, alloc := if c.pocma then y.alloc else x'.alloc, ext := y.ext, n := y.n })
-            (y' := { y with ext := emptyExts c.dim, n := 0 }) (h4 hA) hij hj1 rfl rfl rfl ?_
-          intro b blk hn hb hB hf
-          show c.eqv blk.alloc (if c.pocma then y.alloc else x'.alloc) = true
-          rw [hp]
-          exact (h4 hA).ownerEq j y b blk hj1 hn hb hB hf
-        · exact InvA.of_iae hiae _ _
+        refine InvA.transfer (x' := { x' with base := y.base, alloc := if c.pocma then y.alloc else x'.alloc, ext := y.ext, n := y.n })
+          (y' := { y with ext := emptyExts c.dim, n := 0 }) (h4 hA) hij hj1 rfl rfl rfl ?_
+        intro b blk hn hb hB hf
+        show c.eqv blk.alloc (if c.pocma then y.alloc else x'.alloc) = true
+        have h0 := (h4 hA).ownerEq j y b blk hj1 hn hb hB hf
+        rcases haff with hp | he
+        · rw [hp]; exact h0
+        · cases hp : c.pocma with
+          | true => exact h0
+          | false => simp only [Bool.false_eq_true, if_false]; rw [hx']; exact eqv_trans h0 (eqv_symm he)
       · show allocOf s3 i = if c.pocma then allocOf s j else allocOf s i
         unfold allocOf
         rw [getArr_of_arrs (o := some { x' with base := y.base, alloc := if c.pocma then y.alloc else x'.alloc, ext := y.ext, n := y.n })]
@@ -793,8 +764,12 @@ theorem assignCopy_spec (c : Cfg) (hok : c.OK) (i j : Nat) (s : St) (hG : Good c
   unfold opAssignCopy
   rw [get_bind]
   simp only [hx, hy]
-  by_cases hsame : extsEq x.ext y.ext = true
-  · simp only [hsame, if_true]
+  by_cases hkeep : (extsEq x.ext y.ext && !(c.fx9c && c.pocca && !c.eqv x.alloc y.alloc)) = true
+  · have hsame : extsEq x.ext y.ext = true := by
+      simp only [Bool.and_eq_true] at hkeep; exact hkeep.1
+    have hkeepA : (c.fx9c && c.pocca && !c.eqv x.alloc y.alloc) = false := by
+      simp only [Bool.and_eq_true, Bool.not_eq_true'] at hkeep; exact hkeep.2
+    simp only [hkeep, if_true]
     by_cases hij : i = j
     · subst hij
       simp only [if_true]
@@ -828,16 +803,22 @@ theorem assignCopy_spec (c : Cfg) (hok : c.OK) (i j : Nat) (s : St) (hG : Good c
           apply h6
           show InvA c s2.blocks s2.arrs
           rw [h1.blocks, h1.arrs]
-          have hcase : c.pocca = false ∨ c.iae = true := by
-            simp only [Op.affectedA, Bool.and_eq_false_imp, Bool.not_eq_false'] at haff
+          -- outside the finding class: no POCCA, or all allocators equal, or (repaired) the two allocators are equal
+          have hx1a : c.eqv x.alloc x1.alloc = true := by
             cases hp : c.pocca with
-            | false => exact Or.inl rfl
-            | true => exact Or.inr (haff hp)
-          rcases hcase with hp | hiae
-          · have : x1 = x := by rw [← hx1, hp]; rfl
-            subst this
-            exact InvA.relabel hA hi rfl rfl (fun b blk hn hb hB hf => hA.ownerEq i _ b blk hi hn hb hB hf)
-          · exact InvA.of_iae hiae _ _
+            | false => rw [← hx1, hp]; exact eqv_refl c _
+            | true =>
+              have hx1y : x1.alloc = y.alloc := by rw [← hx1, hp]; rfl
+              rw [hx1y]
+              cases hi' : c.iae with
+              | true => simp [Cfg.eqv, hi']
+              | false =>
+                have hf9 : c.fx9c = true := by
+                  simp only [Op.affectedA, hp, hi', Bool.not_false, Bool.and_true, Bool.true_and, Bool.not_eq_false'] at haff
+                  exact haff
+                rw [hf9, hp] at hkeepA
+                simpa using hkeepA
+          exact InvA.relabel hA hi hx1b hx1n (fun b blk hn hb hB hf => eqv_trans (hA.ownerEq i x b blk hi hn hb hB hf) hx1a)
         · show allocOf s' i = if c.pocca then allocOf s j else allocOf s i
           have : allocOf s' i = some x1.alloc := by
             unfold allocOf; rw [getArr_of_arrs (o := some x1)]; rfl
@@ -846,12 +827,13 @@ theorem assignCopy_spec (c : Cfg) (hok : c.OK) (i j : Nat) (s : St) (hG : Good c
           cases c.pocca <;> rfl
       · intro s' ⟨h3, h4, h5⟩
         exact ⟨h1.armed h3, by rw [h5, h1.arrs, List.length_set], h4, by rw [h5]; exact hW1⟩
-  · simp only [hsame, Bool.false_eq_true, if_false, hfx7, if_true]
+  · simp only [hkeep, Bool.false_eq_true, if_false, hfx7, if_true]
     have hij : i ≠ j := by
       intro e; subst e
       have : x = y := by rw [hx] at hy; exact Option.some.inj hy
       subst this
-      exact hsame (extsEq_refl _)
+      apply hkeep
+      simp [extsEq_refl, eqv_refl]
     apply Out.bind (clearArr_out (T := s.fuel ≠ none ∧ (Op.assignCopy i j).isSaMove = true) c hok.wf i x s hG.1 hi) _ (fun _ h => h)
     intro x1 s1 ⟨hx1, hI1, hnf1, harr1, hA1⟩
     generalize hx2 : (if c.pocca = true then { x1 with alloc := y.alloc } else x1) = x2
@@ -1413,6 +1395,251 @@ theorem reextentFill_spec (c : Cfg) (hok : c.OK) (i : Nat) (es : List Ext) (s : 
     (fun _ h => h) id
   intro _ s' ⟨h1, h2, h3, h4, h5⟩
   exact ⟨h1, h2, h3, fun _ => h4, h5⟩
+
+/-! ### move construction / move assignment between unequal allocators (fixes/F9.patch) -/
+
+theorem Inv.of_relB {c : Cfg} {B B1 : List Block} {A : List (Option Arr)} {j : Nat} {y : Arr} {new : Option Arr}
+    (h : Inv c B A) (hj : A[j]? = some (some y)) (hr : RelB c B B1 y) (hnew : ∀ z, new = some z → z.n = 0) :
+    Inv c B1 (A.set j new) := by
+  rcases hr with ⟨hn, hb⟩ | ⟨b, blk, blk', hpos, hb, hB, hf, hB', hfr, hok, _, _⟩
+  · rw [hb]; exact Inv.set_nonowning h hj (fun b => ownsB_empty b hn) hnew
+  · rw [hB']; exact Inv.release h hj hpos hb hB hf hfr hok hnew
+
+theorem InvA.of_relB {c : Cfg} {B B1 : List Block} {A : List (Option Arr)} {j : Nat} {y : Arr} {new : Option Arr}
+    (hA : InvA c B A) (h : Inv c B A) (hj : A[j]? = some (some y)) (hr : RelB c B B1 y) (hnew : ∀ z, new = some z → z.n = 0) :
+    InvA c B1 (A.set j new) := by
+  rcases hr with ⟨hn, hb⟩ | ⟨b, blk, blk', hpos, hb, hB, hf, hB', hfr, hok, hby, hal⟩
+  · rw [hb]; exact InvA.set_nonowning hA hnew
+  · rw [hB']
+    have heq : c.eqv blk'.freedBy blk'.alloc = true := by
+      rw [hby, hal]; exact eqv_symm (hA.ownerEq j y b blk hj hpos hb hB hf)
+    exact InvA.release hA h hj hpos hb hB hf hfr heq hnew
+
+/-- the move-assignment tail `clear(); adopt p` applied to a block that `build` / `buildSafe` has just produced on top of a
+    good state (the temporary of `operator=(array{…})`, and of the element-wise move) -/
+theorem adoptBuilt_out (c : Cfg) (hok : c.OK) (i : Nat) (x : Arr) (ta : AllocId) (ext : List Ext) (n : Nat) (s s1 : St)
+    (p : Option Nat) {Q : St → Prop} {T : Prop} (hG : Good c s) (hi : s.arrs[i]? = some (some x)) (hb : Built c ta n s s1 p)
+    (hext : n = nElems ext) :
+    Out (noexcept (moveAssignFrom c i x ta p ext n) s1)
+      (fun _ s' => Good c s' ∧ NF s s' ∧ s'.arrs.length = s.arrs.length ∧
+        (c.eqv ta (if c.pocma then ta else x.alloc) = true → InvAS c s → InvAS c s') ∧
+        allocOf s' i = some (if c.pocma then ta else x.alloc)) Q T := by
+  obtain ⟨hI, hW⟩ := hG
+  have hlti : i < s.arrs.length := (List.getElem?_eq_some_iff.mp hi).1
+  refine Out.noexcept' (Q := fun _ => False) (T := False) ?_ (fun _ h => False.elim h) (fun h => False.elim h)
+  unfold moveAssignFrom
+  have hblk1 : HasBlock c s1.blocks x := (HasBlock.of_inv hI hi).of_built hb
+  apply Out.bind (clearArr_raw (T := False) c hok.wf i x s1 hblk1) _ (fun _ h => h)
+  intro x1 s2 ⟨hx1, hnf2, harr2, sr, hr, hbl2⟩
+  apply Out.mono (setSlot_out i _ s2) _ (fun _ h => h) id
+  intro _ s3 h3
+  generalize hxf : ({ x1 with base := p, alloc := if c.pocma then ta else x1.alloc, ext := ext, n := n } : Arr) = xf
+  have hxfb : xf.base = p := by rw [← hxf]
+  have hxfn : xf.n = n := by rw [← hxf]
+  have hxfa : xf.alloc = if c.pocma then ta else x.alloc := by rw [← hxf, hx1]
+  have harr3 : s3.arrs = s.arrs.set i (some xf) := by
+    rw [h3.arrs, harr2, hb.2.1, List.set_set, hxf]
+  have hbl3 : s3.blocks = sr.blocks := by rw [h3.blocks, hbl2]
+  obtain ⟨B1, hr0, hnew⟩ := hb.then_released (xf := xf) (HasBlock.of_inv hI hi) hr.relB hxfb hxfn
+  refine ⟨⟨?_, ?_⟩, fun h => h3.fuel (hnf2 (hb.1 h)), by rw [harr3, List.length_set], ?_, ?_⟩
+  · show Inv c s3.blocks s3.arrs
+    rw [harr3, hbl3]; exact Inv.replace hI hi hr0 hnew
+  · rw [harr3]
+    exact hW.set (fun z hz => by cases hz; rw [← hxf]; exact hext)
+  · intro heq hA
+    show InvA c s3.blocks s3.arrs
+    rw [harr3, hbl3]
+    exact InvA.replace hA hI hi hr0 hnew (by rw [hxfa]; exact heq)
+  · rw [allocOf_set_self harr3 hlti, hxfa]
+
+/-- the element-wise move out of slot `j` into storage of allocator `a`: seen from a state `sm` in which `j` has already been
+    cleared, it is a `buildSafe` -/
+theorem moveElementwise_out (c : Cfg) (hok : c.OK) (j : Nat) (y : Arr) (a : AllocId) (s : St) {T : Prop} (hG : Good c s)
+    (hj : s.arrs[j]? = some (some y)) :
+    Out (moveElementwise c j y a s)
+      (fun p s' => ∃ sm, Good c sm ∧ sm.fuel = s.fuel ∧ sm.blocks.length = s.blocks.length ∧
+        sm.arrs = s.arrs.set j (some { y with ext := emptyExts c.dim, n := 0 }) ∧
+        (InvAS c s → InvAS c sm) ∧ Built c a y.n sm s' p)
+      (fun s' => s.fuel ≠ none ∧ Cleaned c a s s') T := by
+  obtain ⟨hI, hW⟩ := hG
+  unfold moveElementwise
+  apply Out.bind (readSrc_out (Q := fun _ => False) c j y.n y s hI hj (Nat.le_refl _)) _ (fun _ h => h.elim)
+  intro _ s0 h0; subst h0
+  apply Out.bind (buildSafe_out (T := T) c a y.n true s0 (by intro h; cases h)) _ (fun _ h => h)
+  intro p s1 hb
+  have hblk1 : HasBlock c s1.blocks y := (HasBlock.of_inv hI hj).of_built hb
+  apply Out.bind (clearArr_raw (Q := fun _ => False) c hok.wf j y s1 hblk1) _ (fun _ h => h.elim)
+  intro y1 s2 ⟨hy1, hnf2, harr2, sr, hr, hbl2⟩
+  apply Out.pure'
+  -- the heap underneath the new block
+  have hfinal : ∃ B1, RelB c s0.blocks B1 y ∧
+      ((y.n = 0 ∧ p = none ∧ s2.blocks = B1) ∨
+       (∃ nb, 0 < y.n ∧ p = some s0.blocks.length ∧ s2.blocks = B1 ++ [nb] ∧ nb.freed = false ∧ nb.size = y.n ∧ CellsOK c nb ∧ nb.alloc = a)) := by
+    have hrel := hr.relB
+    obtain ⟨_, _, hcase⟩ := hb
+    rcases hcase with ⟨hn, hp, hbl⟩ | ⟨nb, hn, hp, hbl, r⟩
+    · rw [hbl] at hrel
+      exact ⟨sr.blocks, hrel, Or.inl ⟨hn, hp, hbl2⟩⟩
+    · rw [hbl] at hrel
+      obtain ⟨B0, hr0, hB0⟩ := RelB.of_append (HasBlock.of_inv hI hj) hrel
+      exact ⟨B0, hr0, Or.inr ⟨nb, hn, hp, by rw [hbl2, hB0], r⟩⟩
+  obtain ⟨B1, hr0, hcase⟩ := hfinal
+  have hlen := hr0.length
+  refine ⟨{ s0 with blocks := B1, arrs := s0.arrs.set j (some { y with ext := emptyExts c.dim, n := 0 }) }, ⟨?_, ?_⟩, rfl, hlen, rfl, ?_, ?_⟩
+  · exact Inv.of_relB hI hj hr0 (fun z hz => by cases hz; rfl)
+  · exact hW.set (fun z hz => by cases hz; show 0 = nElems (emptyExts c.dim); rw [nElems_emptyExts hok.dim])
+  · intro hA
+    exact InvA.of_relB hA hI hj hr0 (fun z hz => by cases hz; rfl)
+  · refine ⟨fun h => hnf2 (hb.1 h), by rw [harr2, hb.2.1, hy1], ?_⟩
+    rcases hcase with ⟨hn, hp, hbl⟩ | ⟨nb, hn, hp, hbl, r⟩
+    · exact Or.inl ⟨hn, hp, hbl⟩
+    · exact Or.inr ⟨nb, hn, by rw [hp, hlen], hbl, r⟩
+
+/-- a state reached by `Cleaned` from a good state is good -/
+theorem Cleaned.good {c : Cfg} {a : AllocId} {s s' : St} (h : Cleaned c a s s') (hG : Good c s) : Good c s' :=
+  ⟨h.inv hG.1, by rw [h.1]; exact hG.2⟩
+
+/-- move construction (plain and allocator-extended), both branches -/
+theorem opCtorMove_out (c : Cfg) (hok : c.OK) (i j : Nat) (a : Option AllocId) (s : St) {T : Prop} (hG : Good c s)
+    (hvac : vacant s i = true) (y : Arr) (hy : getArr s j = some y) :
+    Out (opCtorMove c i j a s)
+      (fun _ s' => Good c s' ∧ NF s s' ∧ s'.arrs.length = s.arrs.length ∧
+        ((c.fx9a = true ∨ c.eqv (pickAlloc a y.alloc) y.alloc = true) → InvAS c s → InvAS c s') ∧
+        allocOf s' i = some (pickAlloc a y.alloc))
+      (fun s' => s.fuel ≠ none ∧ s'.arrs.length = s.arrs.length ∧ Good c s') T := by
+  by_cases hcond : (c.fx9a && !c.eqv (pickAlloc a y.alloc) y.alloc) = true
+  · -- element-wise
+    obtain ⟨hlt, hi⟩ := vacant_iff.mp hvac
+    have hj := getArr_eq hy
+    have hij : i ≠ j := by intro e; subst e; rw [hi] at hj; cases hj
+    unfold opCtorMove
+    rw [get_bind]
+    simp only [hy, hcond, if_true]
+    generalize pickAlloc a y.alloc = al
+    apply Out.bind (moveElementwise_out (T := T) c hok j y al s hG hj)
+    · intro p s1 ⟨sm, hGm, hfm, hlm, harrm, hAm, hb⟩
+      apply Out.mono (setSlot_out i _ s1) _ (fun _ h => h) id
+      intro _ s2 h2
+      have him : sm.arrs[i]? = some none := by rw [harrm, List.getElem?_set_ne (Ne.symm hij)]; exact hi
+      have harr2 : s2.arrs = sm.arrs.set i (some ⟨al, p, y.ext, y.n⟩) := by rw [h2.arrs, hb.2.1]
+      refine ⟨⟨?_, ?_⟩, fun h => h2.fuel (hb.1 (by rw [hfm]; exact h)), by rw [harr2, harrm]; simp, ?_, ?_⟩
+      · show Inv c s2.blocks s2.arrs
+        rw [h2.blocks, harr2]
+        exact hb.install hGm.1 him ownsB_none rfl rfl
+      · rw [harr2]
+        exact hGm.2.set (fun z hz => by cases hz; exact hG.2 j y hj)
+      · intro _ hA
+        show InvA c s2.blocks s2.arrs
+        rw [h2.blocks, harr2]
+        exact hb.installA hGm.1 (hAm hA) rfl rfl (eqv_refl c al)
+      · exact allocOf_set_self harr2 (by rw [harrm]; simp; exact hlt)
+    · intro s1 ⟨hfu, hcl⟩
+      exact ⟨hfu, by rw [hcl.1], hcl.good hG⟩
+  · have hcond' : (c.fx9a && !c.eqv (pickAlloc a y.alloc) y.alloc) = false := by simpa using hcond
+    apply Out.mono (opCtorMove_adopt (Q := fun _ => False) (T := T) c hok i j a s hG hvac y hy hcond') _ (fun _ h => h.elim) id
+    intro _ s' ⟨h1, h2, h3, h4, h5⟩
+    refine ⟨h1, h2, h3, ?_, h5⟩
+    intro hcase
+    apply h4
+    rcases hcase with hf | he
+    · rw [hf] at hcond'; simpa using hcond'
+    · exact he
+
+theorem ctorMove_spec (c : Cfg) (hok : c.OK) (i j : Nat) (s : St) (hG : Good c s)
+    (happ : (Op.ctorMove i j).applicable c s = true) : OpSpec c (.ctorMove i j) s := by
+  simp only [Op.applicable, Bool.and_eq_true] at happ
+  obtain ⟨y, hy⟩ := alive_iff.mp happ.2
+  unfold OpSpec
+  show Out (opCtorMove c i j none s) _ _ _
+  apply Out.mono (opCtorMove_out (T := s.fuel ≠ none ∧ (Op.ctorMove i j).isSaMove = true) c hok i j none s hG happ.1 y hy) _
+    (fun _ h => h) id
+  intro _ s' ⟨h1, h2, h3, h4, h5⟩
+  refine ⟨h1, h2, h3, fun _ => h4 (Or.inr (eqv_refl c _)), ?_⟩
+  show allocOf s' i = allocOf s j
+  rw [h5, allocOf_eq hy]; rfl
+
+theorem ctorMoveA_spec (c : Cfg) (hok : c.OK) (i j : Nat) (a : AllocId) (s : St) (hG : Good c s)
+    (happ : (Op.ctorMoveA i j a).applicable c s = true) : OpSpec c (.ctorMoveA i j a) s := by
+  simp only [Op.applicable, Bool.and_eq_true] at happ
+  obtain ⟨y, hy⟩ := alive_iff.mp happ.2
+  unfold OpSpec
+  show Out (opCtorMove c i j (some a) s) _ _ _
+  apply Out.mono (opCtorMove_out (T := s.fuel ≠ none ∧ (Op.ctorMoveA i j a).isSaMove = true) c hok i j (some a) s hG happ.1 y hy) _
+    (fun _ h => h) id
+  intro _ s' ⟨h1, h2, h3, h4, h5⟩
+  refine ⟨h1, h2, h3, ?_, h5⟩
+  intro haff
+  apply h4
+  simp only [Op.affectedA, Bool.not_eq_false', Bool.or_eq_true] at haff
+  rcases haff with hiae | hf
+  · exact Or.inr (by simp [Cfg.eqv, hiae])
+  · exact Or.inl hf
+
+/-- move assignment, both branches -/
+theorem assignMove_spec (c : Cfg) (hok : c.OK) (i j : Nat) (s : St) (hG : Good c s)
+    (happ : (Op.assignMove i j).applicable c s = true) : OpSpec c (.assignMove i j) s := by
+  simp only [Op.applicable, Bool.and_eq_true] at happ
+  obtain ⟨x, hx⟩ := alive_iff.mp happ.1
+  obtain ⟨y, hy⟩ := alive_iff.mp happ.2
+  have hi := getArr_eq hx
+  have hj := getArr_eq hy
+  unfold OpSpec
+  by_cases hcond : (i ≠ j ∧ (c.fx9a && !c.pocma && !c.eqv x.alloc y.alloc) = true)
+  · obtain ⟨hij, hc3⟩ := hcond
+    have hpocma : c.pocma = false := by
+      simp only [Bool.and_eq_true, Bool.not_eq_true'] at hc3; exact hc3.1.2
+    show Out (opAssignMove c i j s) _ _ _
+    unfold opAssignMove
+    rw [get_bind]
+    simp only [hx, hy, hij, if_false, hc3, if_true]
+    apply Out.bind (moveElementwise_out (T := s.fuel ≠ none ∧ (Op.assignMove i j).isSaMove = true) c hok j y x.alloc s hG hj)
+    · intro p s1 ⟨sm, hGm, hfm, hlm, harrm, hAm, hb⟩
+      have him : sm.arrs[i]? = some (some x) := by rw [harrm, List.getElem?_set_ne (Ne.symm hij)]; exact hi
+      apply Out.mono (adoptBuilt_out (Q := fun _ => False) (T := s.fuel ≠ none ∧ (Op.assignMove i j).isSaMove = true)
+        c hok i x x.alloc y.ext y.n sm s1 p hGm him hb (hG.2 j y hj)) _ (fun _ h => h.elim) id
+      intro _ s' ⟨h1, h2, h3, h4, h5⟩
+      refine ⟨h1, fun h => h2 (by rw [hfm]; exact h), by rw [h3, harrm]; simp, ?_, ?_⟩
+      · intro _ hA
+        apply h4 _ (hAm hA)
+        rw [hpocma]; exact eqv_refl c _
+      · show allocOf s' i = if c.pocma then allocOf s j else allocOf s i
+        rw [h5, hpocma, allocOf_eq hx]; rfl
+    · intro s1 ⟨hfu, hcl⟩
+      exact ⟨hfu, by rw [hcl.1], hcl.good hG⟩
+  · have hcond' : i = j ∨ (c.fx9a && !c.pocma && !c.eqv x.alloc y.alloc) = false := by
+      by_cases hij : i = j
+      · exact Or.inl hij
+      · right
+        cases h : (c.fx9a && !c.pocma && !c.eqv x.alloc y.alloc) with
+        | false => rfl
+        | true => exact absurd ⟨hij, h⟩ hcond
+    show Out (opAssignMove c i j s) _ _ _
+    rcases hcond' with hij | hc3
+    · subst hij
+      unfold opAssignMove
+      rw [get_bind]
+      simp only [hx, if_true]
+      apply Out.pure'
+      refine ⟨hG, NF.refl s, rfl, fun _ h => h, ?_⟩
+      show allocOf s i = if c.pocma then allocOf s i else allocOf s i
+      cases c.pocma <;> rfl
+    · apply Out.mono (assignMove_adopt (T := s.fuel ≠ none ∧ (Op.assignMove i j).isSaMove = true) c hok i j s hG x y hx hy hc3) _
+        (fun _ h => h.elim) id
+      intro _ s' ⟨h1, h2, h3, h4, h5⟩
+      refine ⟨h1, h2, h3, ?_, h5⟩
+      intro haff
+      apply h4
+      simp only [Op.affectedA, Bool.not_eq_false', Bool.or_eq_true] at haff
+      rcases haff with (hp | hiae) | hf
+      · exact Or.inl hp
+      · exact Or.inr (by simp [Cfg.eqv, hiae])
+      · rw [hf] at hc3
+        cases hp : c.pocma with
+        | true => exact Or.inl rfl
+        | false =>
+          rw [hp] at hc3
+          right
+          simpa using hc3
 
 /-! ### static_array move construction (noexcept, but allocating) -/
 
